@@ -567,6 +567,22 @@ class C16(Property):
                        [["add", ks[0]], ["count"]] + [["add", k] for k in ks[1:]] + [["count"], ["keys"]] +
                        [["contains", k] for k in ks] + [["remove", ks[0]], ["remove", ks[3]], ["addany", ks[5]], ["count"], ["keys"]] +
                        [["keysof", t] for t in tags] + [["contains", ks[0]], ["contains", ks[5]]]})
+        # a hit on k, then k removed - by Del and by its expiry - then Sets up to the limit: no live key may be
+        # evicted while the cache holds no more than `limit` entries (seed C16-10: a recorded read replayed as an
+        # insertion of the dead key)
+        for lim in (1, 2, 3):
+            for hit in ("get", "take"):
+                H = (lambda k: ["get", k]) if hit == "get" else (lambda k: ["take", k, 999])
+                fill = [["set", 10 + j, 100 + j] for j in range(lim)]                 # keys 10.. fill the cache, 10 is read then removed
+                later = [["set", 20 + j, 200 + j] for j in range(lim)]
+                cs.append({"kind": "cache", "limit": lim, "ops":
+                           fill + [H(10), ["del", 10], ["held"], ["set", 20, 200], ["held"], ["size"]] +
+                           [["get", 10 + j] for j in range(1, lim)] + [["get", 20]] + later[1:] + [["held"]] +
+                           [H(20), H(20), ["del", 20], ["del", 20], ["set", 30, 300], ["held"], ["set", 31, 301], ["held"]]})
+                cs.append({"kind": "cachew", "limit": lim, "expire_ms": e2, "ops":
+                           [["set", 10, 100, e1]] + [["set", 10 + j, 100 + j, es[4]] for j in range(1, lim)] +
+                           [H(10)] + T + [["held"], ["set", 20, 200, es[4]], ["held"], ["size"]] +
+                           [["get", 10 + j] for j in range(1, lim)] + [["get", 20], ["set", 21, 201, es[4]], ["held"]]})
         # two concurrent Takes of one key (loader gated), limit 1: one load, one entry, one eviction
         cs.append({"kind": "cache_take2", "limit": 1, "ops": [["set", 1, 10], ["take2", 9, 90, 91], ["get", 9], ["get", 1]]})
         cs.append({"kind": "cache_take2", "limit": 2, "ops":
